@@ -193,7 +193,7 @@ theorem no_panic_befp_validate (H : HashFn) (c : Codec) (hc : CodecShape c) (raw
   apply bind_noPanic (befpFromRaw_noPanic raw)
   intro p hp
   unfold befpValidate befpValidateWith
-  apply bind_noPanic (befpPrefix_noPanic H p (befpFromRaw_u32 hp) hh dah hw)
+  apply bind_noPanic (befpPrefix_noPanic H true true p (befpFromRaw_u32 hp) hh dah hw)
   intro rk hrk
   obtain ⟨h1, h2, h3, h4⟩ := befpPrefix_ok (rebuilt := rk.1) (k := rk.2) hrk
   exact befpSuffix_noPanic H c hc p dah rk.1 rk.2 h1 h2 h3 h4
@@ -215,8 +215,8 @@ theorem no_panic_befp_validate_partial (H : HashFn) (c : Codec) (hc : CodecShape
     rw [hp] at h
     simp only [Out.bind] at h
     unfold befpValidateNmtFixed befpValidateWith at h
-    cases hpre : befpPrefix (safeVerifyRange H) p hh dah with
-    | panic s => have := befpPrefix_noPanic H p (befpFromRaw_u32 hp) hh dah hw; rw [hpre] at this; cases this
+    cases hpre : befpPrefix (safeVerifyRange H) false false p hh dah with
+    | panic s => have := befpPrefix_noPanic H false false p (befpFromRaw_u32 hp) hh dah hw; rw [hpre] at this; cases this
     | err => rw [hpre] at h; cases h
     | ok rk =>
       rw [hpre] at h
